@@ -191,7 +191,7 @@ fn tmp_path(tag: &str) -> std::path::PathBuf {
 
 /// checks export + re-import of one circuit; returns the exported text if any
 fn check_export(c: &Circuit, site: &str, desc: serde_json::Value, cnt: &ExpCnt, coll: &Collector) -> Option<String> {
-    cnt.circuits.fetch_add(1, Ordering::Relaxed);
+    let offered = cnt.circuits.fetch_add(1, Ordering::Relaxed);
     if c.output_gates.len() < 161 {
         return None;
     }
@@ -206,7 +206,16 @@ fn check_export(c: &Circuit, site: &str, desc: serde_json::Value, cnt: &ExpCnt, 
         }
     }
     let path = tmp_path("exp");
-    let case = |extra: &str| json!({"kind": "bristol-export", "origin": desc, "input_gates": c.input_gates, "gates": c.gates.len(), "outputs": outs, "note": extra});
+    // what is at the path before the export (an answer of the environment): nothing, an empty file, or an
+    // older, longer file whose content must not survive
+    let pre = offered % 3;
+    if pre == 1 {
+        let _ = std::fs::write(&path, "");
+    } else if pre == 2 {
+        let _ = std::fs::write(&path, "2 1 7 8 9 XOR  stale line of an older and longer file\n".repeat(c.gates.len() + c.input_gates.iter().sum::<usize>() + 40));
+    }
+    let pre_name = ["absent", "empty", "older longer file"][pre as usize];
+    let case = |extra: &str| json!({"kind": "bristol-export", "origin": desc, "input_gates": c.input_gates, "gates": c.gates.len(), "outputs": outs, "file_before_export": pre_name, "note": extra});
     let r = catch(|| c.format_as_bristol(&path));
     let res = match r {
         Err(p) => {
